@@ -138,7 +138,7 @@ theorem construct_new {m : List Rat} {vs : List Nat} {i : Interaction} {off : Ra
     (h : construct ⟨.new, m, vs⟩ = .ok (i, off)) : off = 0 ∧ i.mat = m := by
   simp only [construct, Res.map, Res.bind] at h
   rw [new_eq] at h
-  by_cases hc : (∀ x ∈ m, 0 ≤ x) ∧ vs ≠ [] ∧ m.length = 4 ^ vs.length
+  by_cases hc : (∀ x ∈ m, 0 ≤ x) ∧ (vs ≠ [] ∧ vs.Nodup) ∧ m.length = 4 ^ vs.length
   · rw [if_pos hc] at h; simp only at h; injection h with h; injection h with h1 h2
     exact ⟨h2.symm, by rw [← h1]; rfl⟩
   · rw [if_neg hc] at h; cases h
@@ -147,7 +147,7 @@ theorem construct_diag {m : List Rat} {vs : List Nat} {i : Interaction} {off : R
     (h : construct ⟨.diag, m, vs⟩ = .ok (i, off)) : off = 0 ∧ i.mat = m := by
   simp only [construct, Res.map, Res.bind] at h
   rw [newDiagonal_eq] at h
-  by_cases hc : (∀ x ∈ m, 0 ≤ x) ∧ vs ≠ [] ∧ m.length = 2 ^ vs.length
+  by_cases hc : (∀ x ∈ m, 0 ≤ x) ∧ (vs ≠ [] ∧ vs.Nodup) ∧ m.length = 2 ^ vs.length
   · rw [if_pos hc] at h; simp only at h; injection h with h; injection h with h1 h2
     exact ⟨h2.symm, by rw [← h1]; rfl⟩
   · rw [if_neg hc] at h; cases h
@@ -159,7 +159,7 @@ theorem construct_diagOff {m : List Rat} {vs : List Nat} {i : Interaction} {off 
       (m ≠ [] → off ∈ m ∧ ∀ x ∈ m, off ≤ x) := by
   simp only [construct] at h
   rw [newDiagonalOffset_eq] at h
-  by_cases hc : vs ≠ [] ∧ m.length = 2 ^ vs.length
+  by_cases hc : (vs ≠ [] ∧ vs.Nodup) ∧ m.length = 2 ^ vs.length
   · rw [if_pos hc] at h
     injection h with h; injection h with h1 h2
     refine ⟨h2.symm, by rw [← h1, ← h2]; rfl, ?_⟩
@@ -183,7 +183,7 @@ theorem construct_newOff {m : List Rat} {vs : List Nat} {i : Interaction} {off :
   by_cases hlen : m.length = 4 ^ vs.length
   · obtain ⟨d, m', h1, h2, h3, h4, h5, heq⟩ := hgood hlen
     rw [heq, new_eq] at h
-    by_cases hc : (∀ x ∈ m', 0 ≤ x) ∧ vs ≠ [] ∧ m'.length = 4 ^ vs.length
+    by_cases hc : (∀ x ∈ m', 0 ≤ x) ∧ (vs ≠ [] ∧ vs.Nodup) ∧ m'.length = 4 ^ vs.length
     · rw [if_pos hc] at h
       simp only [Res.map, Res.bind] at h
       injection h with h; injection h with e1 e2
